@@ -112,7 +112,55 @@ def shape(rng, n):
     return pts
 
 
+def flat_arc_pts(rng):
+    """three points of a very flat circular arc: the middle point bulges at most ~0.3 px from the chord (so the arc needs
+    only one or two sub-points) while the triangle's cross product stays far above f32::EPSILON."""
+    ang = rng.uniform(0, 2 * math.pi)
+    ux, uy = math.cos(ang), math.sin(ang)
+    x0, y0 = rng.uniform(-100, 500), rng.uniform(-100, 400)
+    chord = rng.choice([rng.uniform(2, 30), rng.uniform(30, 300), float(rng.randint(5, 120))])
+    tm = rng.uniform(0.2, 0.8)
+    bulge = rng.choice([0.01, 0.03, 0.05, 0.08, 0.1, 0.12, 0.2, 0.3]) * rng.choice([-1, 1])
+    if rng.random() < 0.4:   # small integers, e.g. (0,0) (10,1) (21,2)
+        k = rng.randint(5, 40)
+        a = (0.0, 0.0)
+        b = (float(k), float(rng.randint(0, 3)))
+        c = (float(2 * k + rng.choice([-1, 1])), float(2 * int(b[1]) + rng.choice([0, 0, 1, -1])))
+        ox, oy = float(rng.randint(0, 300)), float(rng.randint(0, 300))
+        return [(a[0] + ox, a[1] + oy), (b[0] + ox, b[1] + oy), (c[0] + ox, c[1] + oy)]
+    return [(f32(x0), f32(y0)),
+            (f32(x0 + ux * chord * tm - uy * bulge), f32(y0 + uy * chord * tm + ux * bulge)),
+            (f32(x0 + ux * chord), f32(y0 + uy * chord))]
+
+
+def longway_arc_pts(rng):
+    """three nearly collinear points inside [-4096, 4096]^2 whose middle point is NOT between the outer two along the circle's
+    short side: the arc through them runs the long way round an enormous circle (700..1700 sub-points around the code's
+    bail-out of 1000), which must fall back to a Bezier."""
+    x = rng.uniform(800, 2800)
+    r = math.exp(rng.uniform(math.log(9000), math.log(70000)))
+    # circle through (-x,0), (x,0), (0,-h):  r = (x^2 + h^2) / (2h)  =>  h = r - sqrt(r^2 - x^2)
+    h = r - math.sqrt(r * r - x * x)
+    ang = rng.uniform(0, 2 * math.pi)
+    ca, sa = math.cos(ang), math.sin(ang)
+    ox, oy = rng.uniform(-1000, 1000), rng.uniform(-1000, 1000)
+    tr = lambda px, py: (f32(ox + ca * px - sa * py), f32(oy + sa * px + ca * py))
+    pts = [tr(-x, 0.0), tr(x, 0.0), tr(0.0, -h)]
+    if rng.random() < 0.3:
+        pts = [pts[0], pts[2], pts[1]]   # control: the short way (a small, ordinary arc)
+    if max(abs(c) for p in pts for c in p) > 4096:
+        return longway_arc_pts(rng)
+    return pts
+
+
 def rand_points(rng, nmax=12):
+    k = rng.random()
+    if k < 0.04:
+        ps = flat_arc_pts(rng)
+        return [(ps[0][0], ps[0][1], "P"), (ps[1][0], ps[1][1], None), (ps[2][0], ps[2][1], None)]
+    if k < 0.06:
+        ps = longway_arc_pts(rng)
+        return [(ps[0][0], ps[0][1], "P"), (ps[1][0], ps[1][1], None), (ps[2][0], ps[2][1], None)]
     n = rng.choice([1, 2, 2, 3, 3, 3, 4, 4, 5, 6, 7, 8, 10, nmax])
     ps = shape(rng, n)
     ts = layout(rng, n)
